@@ -572,3 +572,43 @@ def threads_stage(prop, tier, seed, races=6, race_threads=8):
 def replay_threads(rep):
     st = threads_stage("replay", rep.get("tier", "quick"), rep["seed"])
     return [v["message"] for v in st.violations]
+
+
+def vectors_stage(prop, seed):
+    """Golden vectors recorded from the pinned release verify and recover the recorded masks on the current tree."""
+    st = StageResult("rp:golden-vectors")
+    t0 = time.time()
+    vf = os.path.join(vlib.VERIF, "vectors", "golden_0.4.0.json")
+    out = json.loads(vlib.run_harness(["vectors", "--file", vf], timeout=1800))
+    st.evaluations += out["checked"]
+    st.traces += out["checked"]
+    vec = json.load(open(vf))
+    for v in vec:
+        st.distinct.add(f"{v['bits']}/{v['aggregation']}/{v['capacity']}/{v['degree']}/{v['seed'] is not None}")
+    st.samples.append({k: vec[0][k] for k in ("bits", "aggregation", "capacity", "degree", "label")})
+    for mm in out["mismatches"]:
+        st.add_violation(f"[golden vectors] {mm}", {"kind": "vectors", "seed": seed, "message": mm})
+    st.wall = time.time() - t0
+    return st
+
+
+def nonce_stage(prop):
+    """TLC checks injectivity of the seed-nonce key layout and prints the key table; the harness's reference must match it."""
+    st = StageResult("mc:nonce-layout")
+    t0 = time.time()
+    wd = vlib.workdir(f"{prop}_nonce")
+    r = vlib.run_tlc("MC_Nonce", "CONSTANTS MaxRounds = 12 MaxDeg = 6\nSPECIFICATION Spec\nINVARIANTS Injective PersonaFits Emit\nCHECK_DEADLOCK FALSE\n", wd, workers=2, timeout=600)
+    if not r["ok"]:
+        raise vlib.ToolError("MC_Nonce failed:\n" + r["out"][-2000:])
+    st.states += r["distinct"]
+    st.transitions += r["generated"]
+    script = vlib.replay_lines(r["out"])[0]
+    sp = os.path.join(wd, "nonce.json")
+    json.dump(script, open(sp, "w"))
+    out = json.loads(vlib.run_harness(["noncekeys", "--script", sp]))
+    if out["mismatches"]:
+        raise vlib.ToolError("harness reference nonce derivation disagrees with MC_Nonce: " + str(out["mismatches"][:3]))
+    st.evaluations += out["checked"]
+    st.samples.append(script["table"][0])
+    st.wall = time.time() - t0
+    return st
